@@ -96,7 +96,11 @@ func buildWorld(seed int64, sp worldSpec) *world {
 		bal := make([]byte, r.Intn(20))
 		r.Read(bal)
 		a.balance = new(big.Int).SetBytes(bal)
-		if sp.ncodes > 0 && r.Intn(2) == 0 {
+		// every code is deployed at least once (the database only knows deployed code)
+		if i < sp.ncodes {
+			a.codeIdx = i + 1
+			a.code = w.codes[a.codeIdx-1]
+		} else if sp.ncodes > 0 && r.Intn(2) == 0 {
 			a.codeIdx = 1 + r.Intn(sp.ncodes)
 			a.code = w.codes[a.codeIdx-1]
 		}
@@ -270,6 +274,9 @@ type codeResp struct {
 	Codes []int `json:"codes"`
 }
 
+// strict: the pending C48 finding (storage range cut at the limit without proof) is a violation
+var strict = os.Getenv("VERIF_C48_STRICT") == "1"
+
 type checker struct {
 	w      *world
 	sum    *tl.Summary
@@ -435,7 +442,7 @@ func (c *checker) storage(scheme string, q storReq, accounts []common.Hash, orig
 			// TODO-KNOWN-FINDING (C48, pending coordinator decision): zero/absent origin with a limit
 			// below the last slot: the server stops at the limit without setting `abort`, so the
 			// truncated list is sent without proof and the client's whole-trie check fails.
-			if k == 0 && how == "whole-trie check" && q.Limit >= 0 && q.Origin <= 0 && q.Limit <= 2*len(a.slotKeys)-1 {
+			if !strict && k == 0 && how == "whole-trie check" && q.Limit >= 0 && q.Origin <= 0 && q.Limit <= 2*len(a.slotKeys)-1 {
 				c.sum.Count("known-finding:storage-limit-without-proof")
 				k++
 				continue
